@@ -843,6 +843,94 @@ static void sweep_case(const Sweep& sw, vr::Ctx& ctx)
         ctx.sample("{\"sweep\":" + vr::jstr(prog_str(head)) + ",\"orders_x_outcomes\":" + std::to_string(gPrograms - before) + "}");
 }
 
+// ---- void-source chains: the promise at the head of the chain is a Promise<void> ------------------------------------
+// source: settled before / after the continuation is attached, fulfilled / rejected (4) x continuation returning a
+// value, nothing, a fulfilled promise, a rejected promise, a pending promise settled later (5) x a watcher attached to
+// the derived promise before the source settles / after everything (2); rejection handlers rethrow.
+static void void_family(vr::Ctx& ctx)
+{
+    static const char* kSrc[]  = { "pending-then-fulfilled", "already-fulfilled", "pending-then-rejected", "already-rejected" };
+    static const char* kCont[] = { "returns-value", "returns-nothing", "returns-fulfilled-promise", "returns-rejected-promise", "returns-pending-promise" };
+    uint64_t n = 0;
+    for (int src = 0; src < 4; ++src)
+        for (int cont = 0; cont < 5; ++cont)
+            for (int early = 0; early < 2; ++early)
+            {
+                std::string what = std::string("void source ") + kSrc[src] + ", continuation " + kCont[cont] + ", watcher attached " + (early ? "before the source settles" : "after everything");
+                ctx.note(what);
+                std::optional<Async::Resolver> res, ires;
+                std::optional<Async::Rejection> rej, irej;
+                int contRuns = 0, watchOk = 0, watchRej = 0, watchVal = -1, watchExc = -1;
+                std::string escaped;
+                bool fulfilled = src < 2;
+                auto excp      = [](int id) { return std::make_exception_ptr(std::runtime_error(std::to_string(id))); };
+                try
+                {
+                    Async::Promise<void> v = src == 1 ? Async::Promise<void>::resolved() : src == 3 ? Async::Promise<void>::rejected(std::runtime_error("1")) : Async::Promise<void>([&](Async::Resolver& r, Async::Rejection& j) { res.emplace(std::move(r)); rej.emplace(std::move(j)); });
+                    std::shared_ptr<Async::Promise<int>> d;
+                    auto watch = [&](Async::Promise<int>& p) {
+                        p.then([&](int x) { ++watchOk; watchVal = x; }, [&](std::exception_ptr e) { ++watchRej; watchExc = exc_id(e); });
+                    };
+                    switch (cont)
+                    {
+                    case 0:
+                        d = std::make_shared<Async::Promise<int>>(v.then([&]() { ++contRuns; return 7; }, Async::Throw));
+                        break;
+                    case 1:
+                        v.then([&]() { ++contRuns; }, Async::Throw);
+                        break;
+                    case 2:
+                        d = std::make_shared<Async::Promise<int>>(v.then([&]() { ++contRuns; return Async::Promise<int>::resolved(9); }, Async::Throw));
+                        break;
+                    case 3:
+                        d = std::make_shared<Async::Promise<int>>(v.then([&]() { ++contRuns; return Async::Promise<int>::rejected(std::runtime_error("2")); }, Async::Throw));
+                        break;
+                    default:
+                        d = std::make_shared<Async::Promise<int>>(v.then(
+                            [&]() {
+                                ++contRuns;
+                                return Async::Promise<int>([&](Async::Resolver& r, Async::Rejection& j) { ires.emplace(std::move(r)); irej.emplace(std::move(j)); });
+                            },
+                            Async::Throw));
+                    }
+                    if (early && d)
+                        watch(*d);
+                    if (src == 0)
+                        (*res)();
+                    else if (src == 2)
+                        (*rej)(excp(1));
+                    if (cont == 4 && ires)
+                        (*ires)(11);
+                    if (!early && d)
+                        watch(*d);
+                }
+                catch (const std::exception& e)
+                {
+                    escaped = e.what();
+                }
+                ++n;
+                ++gPrograms;
+                std::string obs = "cont_runs=" + std::to_string(contRuns) + " watcher_ok=" + std::to_string(watchOk) + "(" + std::to_string(watchVal) + ") watcher_rej=" + std::to_string(watchRej) + "(" + std::to_string(watchExc) + ")";
+                std::string d2  = "{\"program\":" + vr::jstr(what) + ",\"observed\":" + vr::jstr(obs) + (escaped.empty() ? "" : ",\"exception\":" + vr::jstr(escaped)) + "}";
+                static const int kVal[] = { 7, -1, 9, -1, 11 };
+                bool ok = escaped.empty() && contRuns == (fulfilled ? 1 : 0);
+                if (cont != 1)
+                {
+                    bool expectOk = fulfilled && cont != 3;
+                    int expectExc = fulfilled ? 2 : 1;
+                    ok            = ok && (expectOk ? (watchOk == 1 && watchRej == 0 && watchVal == kVal[cont]) : (watchOk == 0 && watchRej == 1 && watchExc == expectExc));
+                }
+                if (!ok)
+                    ctx.violation(!escaped.empty() ? "c11:void-source:exception-escapes" : contRuns > 1 || watchOk + watchRej > 1 ? "c11:void-source:continuation-ran-twice" : "c11:void-source:outcome-differs:" + std::string(kCont[cont]), d2);
+                ctx.outcome(std::string("void source: ") + (fulfilled ? "fulfilled" : "rejected") + " / " + kCont[cont]);
+                ctx.nontrivial(vr::hash_str(what));
+            }
+    ctx.count("executions", n);
+    ctx.count("evaluations", n);
+    ctx.count("transitions", n * 4);
+    ctx.sample("{\"void_source_chains\":" + std::to_string(n) + "}");
+}
+
 int main(int argc, char** argv)
 {
     vr::Options opt = vr::parse_args(argc, argv);
@@ -868,7 +956,12 @@ int main(int argc, char** argv)
         printf("%zu prefixes of length %d\n", gPrefixes.size(), pre);
         return 0;
     }
-    return vr::run(opt, gPrefixes.size() + gSweeps.size(), [](uint64_t idx, vr::Ctx& ctx) {
+    return vr::run(opt, gPrefixes.size() + gSweeps.size() + 1, [](uint64_t idx, vr::Ctx& ctx) {
+        if (idx == gPrefixes.size() + gSweeps.size())
+        {
+            void_family(ctx);
+            return;
+        }
         if (idx >= gPrefixes.size())
         {
             sweep_case(gSweeps[idx - gPrefixes.size()], ctx);
